@@ -49,7 +49,7 @@ ASSUMPTIONS = [
 PROBES = ["imap_completion_out_of_order", "landy_szalay", "davis_peebles", "nan_bins", "redshiftdata_with_auto", "redshiftdata_with_unk_auto", "exactly_zero_leave_one_out_normalisation", "identities_recycled"]
 REAL_VS_STUB = dict(
     real="yaw measurements, paircounts/corrfunc/corrdata/redshifts algebra, trees, numpy einsum",
-    stub="multiprocessing.Pool (sim.fakemp), _num_processes",
+    stub="multiprocessing.Pool (sim.fakemp), _num_processes; builtins.id during the repeat/churn stage (sim.identity: identities of released objects recycled in a recorded order)",
 )
 
 
